@@ -71,13 +71,17 @@ func raceChild(args []string) {
 	fs.Parse(args)
 	logger.SetLevel(zap.FatalLevel)
 	mode := fs.Lookup("mode").Value.String()
-	if mode == "rot" || mode == "sealedpool" || mode == "fsync" {
+	if mode != "" {
 		var o raceOut
 		switch mode {
 		case "rot":
 			o = rotChild(*seed, *dir)
 		case "fsync":
 			o = fsyncChild(*seed, *dir)
+		case "bigfetch":
+			o = bigFetchChild(*seed, *dir)
+		case "late":
+			o = lateDocsChild(*seed, *dir)
 		default:
 			o = sealedPoolChild(*seed, *dir)
 		}
@@ -515,7 +519,7 @@ func runRace(rep *vh.Report, o vh.Opts, replayLine string) {
 	var cfgs []cfg
 	if replayLine != "" {
 		var c cfg
-		if strings.HasPrefix(replayLine, "race rot ") || strings.HasPrefix(replayLine, "race sealedpool ") || strings.HasPrefix(replayLine, "race fsync ") {
+		if f := strings.Fields(replayLine); len(f) == 3 && strings.HasPrefix(f[2], "seed=") && f[1] != "inmem" {
 			c.mode = strings.Fields(replayLine)[1]
 			fmt.Sscanf(strings.Fields(replayLine)[2], "seed=%d", &c.seed)
 		} else if strings.HasPrefix(replayLine, "race inmem ") {
@@ -532,7 +536,7 @@ func runRace(rep *vh.Report, o vh.Opts, replayLine string) {
 		}
 		for i := 0; i < o.Pick(1, 4); i++ { // directed: append across a rotation; sealed providers after a failed search
 			cfgs = append(cfgs, cfg{seed: int(o.Seed)*100 + i, mode: "rot"}, cfg{seed: int(o.Seed)*100 + i, mode: "sealedpool"},
-				cfg{seed: int(o.Seed)*100 + i, mode: "fsync"})
+				cfg{seed: int(o.Seed)*100 + i, mode: "fsync"}, cfg{seed: int(o.Seed)*100 + i, mode: "bigfetch"}, cfg{seed: int(o.Seed)*100 + i, mode: "late"})
 		}
 		for i := 0; i < o.Pick(1, 3); i++ { // the single-mode write path (in-memory store client, reused metas buffer)
 			cfgs = append(cfgs, cfg{seed: int(o.Seed)*100 + i, bulks: o.Pick(60, 200), inmem: true})
@@ -567,7 +571,7 @@ func runRace(rep *vh.Report, o vh.Opts, replayLine string) {
 			}
 		}
 		if c.mode != "" {
-			orc.Case(line, res.Searches > 0 || res.Bulks > 0, "directed="+c.mode)
+			orc.Case(line, res.Searches > 0 || res.Bulks > 0 || res.Fetches > 0, "directed="+c.mode)
 		} else if c.inmem {
 			orc.Case(line, res.Bulks > 1, "path=in-memory-client")
 		} else {
